@@ -25,6 +25,7 @@ def spectrum(kind, n):
     deg2  : entries 1,2 (0,1 when n == 2) exactly equal
     deg3  : entries 1,2,3 (0..2 when n == 3) exactly equal            (n >= 3)
     deg0  : deg2 shifted so that the coinciding pair sits at 0 (a two-dimensional null space)
+    near  : entries 1,2 (0,1 when n == 2) 2e-7 apart: separated, but closer than the default degeneracy tolerance
     neg   : all negative, separated
     pos   : all positive, separated                                    (usable for A = B^H B)
     pdeg2 / pdeg3 / pclus : positive versions of deg2 / deg3 / clus
@@ -44,6 +45,8 @@ def spectrum(kind, n):
         pass
     elif kind == "clus":
         lam[j + 1] = lam[j] + 5e-4
+    elif kind == "near":
+        lam[j + 1] = lam[j] + 2e-7
     elif kind == "deg2":
         lam[j + 1] = lam[j]
     elif kind == "deg0":
